@@ -50,6 +50,27 @@ def build_case(rng, cid):
     return Case(cid, lines, dict(pats=pats, bufs=bufs, src=text, near=near))
 
 
+def bulk_case(rng, cid, n=500):
+    """hundreds of literal strings of one length that agree up to an embedded 00 byte: the compiler's string pool (a hash
+    table keyed by the raw bytes) must keep them apart; every one is planted once"""
+    prefix = [rng.choice([0x4D, 0x61, 0x90]), rng.randrange(256), rng.randrange(256), 0x00]
+    seen = set()
+    pats = []
+    while len(pats) < n:
+        tail = tuple(rng.randrange(256) for _ in range(4))
+        if tail in seen:
+            continue
+        seen.add(tail)
+        pats.append(([("b", v, 0xFF, False) for v in prefix + list(tail)], prefix + list(tail)))
+    order = list(range(n))
+    rng.shuffle(order)
+    buf = b"".join(bytes(pats[i][1]) + bytes(rng.choice(b"xyz ") for _ in range(rng.choice([0, 1, 3]))) for i in order)
+    src = ["rule r%d { strings: $h = { %s } condition: $h }" % (i, m_hex.render(seq, rng)) for i, (seq, _a) in enumerate(pats)]
+    text = "\n".join(src) + "\n"
+    lines = ["cnew 0", "cadd 0 - " + hx(text), "crules 0 0", "buf 0 " + hx(buf), "scan r0 mem 0 0 0 -"]
+    return Case(cid, lines, dict(pats=pats, bufs=[buf], src=text[:3000] + "...", near=[1]))
+
+
 def evaluate(chk, case, res, stats):
     m = case.meta
     wit_base = {"rule_source": m["src"], "script": case.script()}
@@ -130,6 +151,7 @@ def main(args):
     ncases = int((2200 if args.tier == "quick" else 30000) * args.scale)
     rng = chk.rng
     cases = [build_case(random.Random(rng.getrandbits(64)), "c%d" % i) for i in range(ncases)]
+    cases += [bulk_case(random.Random(rng.getrandbits(64)), "bulk%d" % i) for i in range(2 if args.tier == "quick" else 12)]
     results = harness.run_cases(exe, cases, "c02", cpu=300)
     stats = dict(sig=set(), bt=set(), pairs=0, chained_pairs=0, nontrivial=set(), samples=[], rejected=0, fast=0,
                  general=0)
